@@ -1,6 +1,6 @@
 (* Out/OutConc.v — small-step semantics of the output stream under concurrency.
    Every lock-protected section of outputstream.go is ONE atomic step:
-     Add / Delete / InterruptGetNext     one write-locked section each (Add and Interrupt Broadcast)
+     Add / Delete / InterruptGetNext / Close   one write-locked section each (Add, Interrupt and Close Broadcast)
      Get                                 one read-locked section
      GetNext(ctx, x), repaired           [LReader t] from TStart: the read-locked lookup;
                                          [LReader t] from TLoop: one write-locked iteration of the wait
@@ -26,7 +26,8 @@ Inductive tst :=
 
 Record thread := Thread { t_x : N; t_st : tst; t_cancelled : bool }.
 
-Record cstate := CState { c_out : state; c_threads : gmap nat thread }.
+(* c_closed: Close() was called (the LevelDB handle is closed, nothing will ever be added) *)
+Record cstate := CState { c_out : state; c_threads : gmap nat thread; c_closed : bool }.
 
 Inductive label :=
 | LAdd (id : N) (m : batch)
@@ -36,7 +37,8 @@ Inductive label :=
 | LReader (t : nat)
 | LCancel (t : nat)
 | LInterrupt
-| LEvict (k : N).
+| LEvict (k : N)
+| LClose.
 
 Inductive cres :=
 | Running (c : cstate)
@@ -49,18 +51,21 @@ Definition wake (th : thread) : thread :=
   end.
 Definition broadcast (ts : gmap nat thread) : gmap nat thread := wake <$> ts.
 
-Definition cinit : cstate := CState init ∅.
+Definition cinit : cstate := CState init ∅ false.
 
-(* one reader section *)
-Definition reader_step (o : state) (th : thread) : option (state * thread) :=
+(* one reader section.  On a closed stream both sections answer the empty slice before any
+   lookup (the "if os.closed" tests of GetNext). *)
+Definition reader_step (closed : bool) (o : state) (th : thread) : option (state * thread) :=
   match t_st th with
   | TStart =>
+      if closed then Some (o, Thread (t_x th) (TDone None) (t_cancelled th)) else
       let '(r, o') := next_unlocked o (t_x th) in
       match r with
       | Some b => Some (o', Thread (t_x th) (TDone (Some b)) (t_cancelled th))
       | None => Some (o', Thread (t_x th) TLoop (t_cancelled th))
       end
   | TLoop =>
+      if closed then Some (o, Thread (t_x th) (TDone None) (t_cancelled th)) else
       let '(r, o') := next_unlocked o (t_x th) in
       match r with
       | Some b => Some (o', Thread (t_x th) (TDone (Some b)) (t_cancelled th))
@@ -72,41 +77,54 @@ Definition reader_step (o : state) (th : thread) : option (state * thread) :=
   | TDone _ => None
   end.
 
+(* After Close the LevelDB handle is closed: Add and Delete return errors after touching lastseen
+   and the cache, Get panics on a cache miss.  The schedule discipline (OutProofs.ok_after_close)
+   declares them out of bounds on a closed stream, the harness never issues them, and the model
+   has no transition for them (None) rather than an invented one. *)
 Definition cstep (c : cstate) (l : label) : option cres :=
   match l with
   | LAdd id m =>
+      if c_closed c then None else
       match add (c_out c) id m with
-      | Ok o' => Some (Running (CState o' (broadcast (c_threads c))))
+      | Ok o' => Some (Running (CState o' (broadcast (c_threads c)) false))
       | Panic s => Some (Panicked s)
       end
   | LDelete x =>
+      if c_closed c then None else
       match delete_op (c_out c) x with
-      | Ok o' => Some (Running (CState o' (c_threads c)))
+      | Ok o' => Some (Running (CState o' (c_threads c) false))
       | Panic s => Some (Panicked s)
       end
-  | LGet x => Some (Running (CState (snd (get (c_out c) x)) (c_threads c)))
+  | LGet x =>
+      if c_closed c then None else
+      Some (Running (CState (snd (get (c_out c) x)) (c_threads c) false))
   | LSpawn t x =>
       match c_threads c !! t with
-      | None => Some (Running (CState (c_out c) (<[t := Thread x TStart false]> (c_threads c))))
+      | None => Some (Running (CState (c_out c) (<[t := Thread x TStart false]> (c_threads c)) (c_closed c)))
       | Some _ => None
       end
   | LReader t =>
       match c_threads c !! t with
       | Some th =>
-          match reader_step (c_out c) th with
-          | Some (o', th') => Some (Running (CState o' (<[t := th']> (c_threads c))))
+          match reader_step (c_closed c) (c_out c) th with
+          | Some (o', th') => Some (Running (CState o' (<[t := th']> (c_threads c)) (c_closed c)))
           | None => None
           end
       | None => None
       end
   | LCancel t =>
       match c_threads c !! t with
-      | Some th => Some (Running (CState (c_out c) (<[t := Thread (t_x th) (t_st th) true]> (c_threads c))))
+      | Some th => Some (Running (CState (c_out c) (<[t := Thread (t_x th) (t_st th) true]> (c_threads c)) (c_closed c)))
       | None => None
       end
-  | LInterrupt => Some (Running (CState (c_out c) (broadcast (c_threads c))))
-  | LEvict k => Some (Running (CState (evict (c_out c) k) (c_threads c)))
+  | LInterrupt => Some (Running (CState (c_out c) (broadcast (c_threads c)) (c_closed c)))
+  | LEvict k => Some (Running (CState (evict (c_out c) k) (c_threads c) (c_closed c)))
+  | LClose => Some (Running (CState (c_out c) (broadcast (c_threads c)) true))   (* idempotent *)
   end.
+
+(* GetNext with an already cancelled context, by the driver goroutine, run to completion *)
+Definition getnext_cancelled_c (c : cstate) (x : N) : option (N * batch) * state :=
+  if c_closed c then (None, c_out c) else getnext_cancelled (c_out c) x.
 
 (* run a reader until it is parked or has returned: at most the lookup section and one
    loop iteration (used by the scripted-scenario driver after every main-thread step) *)
